@@ -33,6 +33,10 @@ def std_registry(kind: str) -> List[Dict[str, Any]]:
         {'name': 'pos_ctx', 'params': [P('ctx', ctx=True), P('a', default=0)], 'flavour': co, 'ctx': 'positional'},
         {'name': 'v.get', 'params': [P('a'), P('b', default=None)], 'flavour': av, 'ctx': 'view'},
         {'name': 'a.b.c', 'params': [P('x')], 'flavour': 'func', 'ctx': 'none'},
+        # a context-only method (no client parameters at all) and a class based view whose constructor raises
+        # (a failure OUTSIDE any method body -> internal error)
+        {'name': 'ctx_only', 'params': [P('ctx', ctx=True)], 'flavour': co, 'ctx': 'name'},
+        {'name': 'bad.get', 'params': [P('a', default=None)], 'flavour': av, 'ctx': 'view', 'ctor_raises': True},
     ]
 
 
